@@ -1095,6 +1095,10 @@ def find_rows(fv, root=None, ctx=None):
                 cands.append((tail, fv.term(tail)))
         elif k == "bin" and n.get("op") == "+" and n.get("ty", "").endswith("string::String"):
             cands.append((n, fv.term(n)))
+        elif k == "let" and n.get("pat", {}).get("k") == "pbind" and "Mut)" in n["pat"].get("mode", "") \
+                and (n["pat"].get("ty") or "").endswith("string::String"):
+            # a String local assembled in place (`let mut line = v.join(d); line.push('\n');`)
+            cands.append((n, ("local", n["pat"]["name"], n["pat"]["id"])))
     for n, t in cands:
         ps = string_pieces(fv, t)
         if len(ps) == 2 and ps[1] == ("lit", "\n") and ps[0][0] == "term":
@@ -1145,3 +1149,15 @@ def is_value_select(x):
     if x.get("k") == "match":
         return all(_is_pure(a["body"]) and a.get("guard") is None for a in x.get("arms", []))
     return False
+
+
+
+def as_format_row(fv, data):
+    """the row string as a format term, however it was assembled (`format!("{}\n", j)`, `j + "\n"`, a String local
+    extended with push('\n')): pieces [<one term>, <literal tail>] -> format("{}<tail>"; term)"""
+    if data[0] == "format":
+        return data
+    ps = string_pieces(fv, data)
+    if len(ps) == 2 and ps[0][0] == "term" and ps[1][0] == "lit":
+        return ("format", (("arg", 0, "display", None, None, None), ("lit", ps[1][1])), (ps[0][1],))
+    return data
